@@ -5,6 +5,7 @@ classes are called with a menu of field / wavelength arguments ('all', explicit 
 list without the primary wavelength) and every reported number is recomputed from independently issued traces, from the
 reference paraxial model (distortion) or from Coddington's equations along the real chief ray (field curvature).
 """
+import copy
 import math
 
 import numpy as np
@@ -404,6 +405,43 @@ def run_unit(unit):
                             i = int(np.argmax(np.where(okk, np.abs(got - ref), 0))) if got.shape == ref.shape else 0
                             part.violation(PID, f'field-curvature-{nm}-is-coddington', 'FieldCurvature', condf, dict(det0, wave=w, sample=i, image_radius=img_shape),
                                            observed=float(got[i]) if got.shape == ref.shape else list(got.shape), expected=float(ref[i]), tol=2e-4)
+        # ---------------- field curvature of a lens that is NOT mirror-symmetric about the meridional plane (first surface decentred
+        #                  in x): the documented quantity is the crossing of the projected parabasal pair, recomputed from own traces
+        if not has_mirror:
+            sp_dx = copy.deepcopy(sp)
+            sp_dx['surfs'][0]['dx'] = 0.04 * p['epd']
+            o_dx = LZ.build(sp_dx)
+            part.states += 1
+            condx = cond0 + ',lens=decentred-in-x'
+            npf = 5
+            fcx = guarded(part, 'field-curvature', 'FieldCurvature', condx, det0, lambda: AN.FieldCurvature(o_dx, wavelengths=[0.5876], num_points=npf))
+            part.transitions += 1
+            part.evals += 1
+            if fcx is not None:
+                dl = 4e-5
+                tref, sref = [], []
+                for Hy in np.linspace(0, 1, npf):
+                    rec = []
+                    for (px, py) in ((-dl, 0.0), (dl, 0.0), (0.0, -dl), (0.0, dl)):
+                        o_dx.trace_generic(0.0, float(Hy), px, py, 0.5876)
+                        sg = o_dx.surface_group
+                        rec.append([float(np.ravel(getattr(sg, q)[-1])[0]) for q in ('x', 'y', 'z', 'L', 'M', 'N')])
+                    part.transitions += 4
+                    (xa, _, za, La, _, Na), (xb, _, zb, Lb, _, Nb) = rec[0], rec[1]
+                    # x-z projections  x = xa + La t, z = za + Na t  and  x = xb + Lb u, z = zb + Nb u  cross at parameter t
+                    den = La * Nb - Lb * Na
+                    sref.append(((xb - xa) * Nb - (zb - za) * Lb) / den * Na if den != 0 else float('nan'))
+                    (_, ya, za, _, Ma, Na), (_, yb, zb, _, Mb, Nb) = rec[2], rec[3]
+                    den = Ma * Nb - Mb * Na
+                    tref.append(((yb - ya) * Nb - (zb - za) * Mb) / den * Na if den != 0 else float('nan'))
+                for nm, got, ref in (('tangential', fcx.data[0][0], tref), ('sagittal', fcx.data[0][1], sref)):
+                    got, ref = np.asarray(got, float), np.asarray(ref, float)
+                    part.count('cmp:field-curvature-decentred')
+                    okk = np.isfinite(ref) & (np.abs(ref) < 1e3)
+                    if got.shape != ref.shape or np.any(np.abs(got[okk] - ref[okk]) > 2e-4 + 3e-4 * np.abs(ref[okk])):
+                        i = int(np.argmax(np.where(okk, np.abs(got - ref), 0))) if got.shape == ref.shape else 0
+                        part.violation(PID, f'field-curvature-{nm}-is-parabasal-focus-of-own-rays', 'FieldCurvature', condx, dict(det0, sample=i),
+                                       observed=float(got[i]) if got.shape == ref.shape else list(got.shape), expected=float(ref[i]), tol=2e-4)
         # ---------------- pupil aberration ---------------------------------------------------------------------------------------
         npp = 5
         pa = guarded(part, 'pupil-aberration', 'PupilAberration', cond0 + f',stop={"first" if unit["stop"] == 0 else "later"}', det0,
